@@ -15,6 +15,8 @@ pub enum Tier {
 
 pub const ORD_TYPES: [ElemTy; 8] = [ElemTy::I8, ElemTy::I32, ElemTy::I64, ElemTy::U8, ElemTy::U64, ElemTy::N64, ElemTy::Boxed, ElemTy::Fat];
 pub const NAN_TYPES: [ElemTy; 5] = [ElemTy::F64, ElemTy::F32, ElemTy::OptI32, ElemTy::OptU8, ElemTy::OptN64];
+/// the other Option<integer> implementations of MaybeNan (same macro, but each is its own impl)
+pub const RARE_NAN_TYPES: [ElemTy; 3] = [ElemTy::OptI64, ElemTy::OptI128, ElemTy::OptU16];
 
 pub struct WorldSpec {
     pub ndim: usize,
@@ -155,6 +157,9 @@ pub fn gen_ints(rng: &mut Rng, ty: ElemTy, n: usize, style: ValueStyle, allow_ex
 
 /// raw element encodings for `n` cells
 pub fn gen_values(rng: &mut Rng, ty: ElemTy, n: usize, allow_extremes: bool, allow_special_floats: bool) -> (Vec<i64>, ValueStyle) {
+    if ty == ElemTy::Zst {
+        return (vec![0; n], ValueStyle::AllEqual);
+    }
     let style = *rng.pick(&STYLES);
     let ints = gen_ints(rng, ty, n, style, allow_extremes);
     let mut raws: Vec<i64> = if ty.is_float() {
@@ -305,6 +310,9 @@ fn pick_lane(rng: &mut Rng, shape: &[usize]) -> Option<(Option<(usize, usize)>, 
 /// the re-entrant element type is only used on small worlds (its comparisons draw entropy themselves)
 fn maybe_reent(rng: &mut Rng, ty: ElemTy, lens: &[usize]) -> ElemTy {
     let total: usize = lens.iter().product();
+    if rng.chance(1, 60) {
+        return ElemTy::Zst;
+    }
     if lens.iter().all(|&l| l <= 16) && total <= 64 && rng.chance(1, 10) {
         ElemTy::Reent
     } else {
@@ -428,6 +436,36 @@ fn list_len(rng: &mut Rng, n: usize) -> usize {
     }
 }
 
+/// a request list for a lane of length n: random entries, or a band of consecutive
+/// ranks with a few gaps and as many repeats, in order or shuffled
+fn gen_index_list(rng: &mut Rng, n: usize) -> Vec<u64> {
+    if n >= 8 && rng.chance(1, 8) {
+        let wmax = (n / 2).max(4);
+        let w = if n >= 160 && rng.chance(1, 2) { 32 + rng.below((n / 4).saturating_sub(31).max(1)) } else { 4 + rng.below(wmax - 3) };
+        let w = w.min(n);
+        let start = rng.below(n - w + 1);
+        let mut v: Vec<u64> = (start..start + w).map(|x| x as u64).collect();
+        let holes = rng.below(3);
+        for _ in 0..holes {
+            if v.len() > 2 {
+                let k = 1 + rng.below(v.len() - 2);
+                v.remove(k);
+                let d = v[rng.below(v.len())];
+                let pos = rng.below(v.len() + 1);
+                v.insert(pos, d);
+            }
+        }
+        match rng.below(3) {
+            0 => rng.shuffle(&mut v),
+            1 => v.reverse(),
+            _ => {}
+        }
+        return v;
+    }
+    let cnt = list_len(rng, n);
+    (0..cnt).map(|_| rng.below(n) as u64).collect()
+}
+
 fn pick_storage(rng: &mut Rng) -> u8 {
     if rng.chance(3, 4) {
         0
@@ -462,8 +500,138 @@ fn echo_ops(rng: &mut Rng, shape: &[usize]) -> Vec<Op> {
     vec![a, b]
 }
 
+/// Arrangement of the values in memory (the generators above only decide the multiset):
+/// sorted, reversed, organ pipe, periodic peaks, one constant lane.
+fn rearrange(rng: &mut Rng, scn: &mut Scenario) {
+    let n = scn.data.len();
+    if n < 3 || scn.elem.is_maybe_nan() && !rng.chance(1, 2) {
+        return;
+    }
+    let ty = scn.elem;
+    let key = |r: i64| -> (i32, i128, f64) {
+        if ty.is_missing_raw(r) {
+            return (1, 0, 0.0);
+        }
+        match crate::elem::num_of_raw(ty, r) {
+            crate::elem::NumVal::I(v) => (0, v, 0.0),
+            crate::elem::NumVal::F(f) => (0, 0, f),
+        }
+    };
+    let sort_asc = |d: &mut Vec<i64>| d.sort_by(|a, b| key(*a).partial_cmp(&key(*b)).unwrap_or(std::cmp::Ordering::Equal));
+    match rng.below(24) {
+        0 => sort_asc(&mut scn.data),
+        1 => {
+            sort_asc(&mut scn.data);
+            scn.data.reverse();
+        }
+        2 => {
+            // organ pipe: ascending then descending
+            sort_asc(&mut scn.data);
+            let d = scn.data.clone();
+            let (mut lo, mut hi) = (0usize, n - 1);
+            for (k, v) in d.iter().enumerate() {
+                if k % 2 == 0 {
+                    scn.data[lo] = *v;
+                    lo += 1;
+                } else {
+                    scn.data[hi] = *v;
+                    hi = hi.saturating_sub(1);
+                }
+            }
+        }
+        3 | 4 => {
+            // the largest values on every p-th position
+            sort_asc(&mut scn.data);
+            let p = 2 + rng.below(15);
+            let d = scn.data.clone();
+            let peaks = (n + p - 1) / p;
+            let (small, large) = d.split_at(n - peaks);
+            let (mut si, mut li) = (0, 0);
+            let off = rng.below(p);
+            for k in 0..n {
+                if k % p == off % p && li < large.len() {
+                    scn.data[k] = large[li];
+                    li += 1;
+                } else if si < small.len() {
+                    scn.data[k] = small[si];
+                    si += 1;
+                } else {
+                    scn.data[k] = large[li];
+                    li += 1;
+                }
+            }
+        }
+        5 | 6 => {
+            // one lane (along the longest view axis) becomes constant
+            let im = crate::minimise::index_map(scn);
+            if im.ndim() >= 1 && im.len() > 0 {
+                let ax = (0..im.ndim()).max_by_key(|&a| im.shape()[a]).unwrap();
+                let lanes: Vec<Vec<usize>> = im.lanes(ndarray::Axis(ax)).into_iter().map(|l| l.to_vec()).collect();
+                if !lanes.is_empty() {
+                    let l = &lanes[rng.below(lanes.len())];
+                    if let Some(&first) = l.first() {
+                        let v = scn.data[first];
+                        if !ty.is_missing_raw(v) {
+                            for &c in l {
+                                scn.data[c] = v;
+                            }
+                        }
+                    }
+                }
+            }
+        }
+        _ => {}
+    }
+}
+
+/// A very wide matrix: reducing along the short axis gives tens of thousands of
+/// tiny lanes whose elements are far apart in memory.
+fn wide_matrix_scenario(prop: Prop, rng: &mut Rng) -> Option<Scenario> {
+    let ty = match prop {
+        Prop::C01 | Prop::C18 => *rng.pick(&[ElemTy::I32, ElemTy::N64, ElemTy::U8, ElemTy::Fat]),
+        Prop::C03 => *rng.pick(&[ElemTy::I32, ElemTy::F64, ElemTy::OptI32, ElemTy::Keyed]),
+        Prop::C14 => *rng.pick(&[ElemTy::F64, ElemTy::OptI32, ElemTy::OptI128]),
+        _ => return None,
+    };
+    let k = 3 + rng.below(4);
+    let wdt = 32768 + rng.below(3000);
+    let parent_shape = vec![k, wdt];
+    let total = k * wdt;
+    let (mut data, style) = gen_values(rng, ty, total, false, false);
+    if ty.is_maybe_nan() {
+        for r in data.iter_mut() {
+            if rng.chance(1, 5) {
+                *r = ty.missing_raw(rng.next());
+            }
+        }
+    }
+    let view = ViewDesc { slices: vec![(0, k as isize, 1), (0, wdt as isize, 1)], perm: vec![0, 1] };
+    let mut scn = Scenario { prop: prop.name().into(), elem: ty, static_dim: rng.chance(1, 2), parent_shape, data, view, ops: vec![] };
+    let name = match prop {
+        Prop::C14 => "quantile_axis_skipnan",
+        Prop::C03 if ty.is_maybe_nan() => *rng.pick(&["quantile_axis_skipnan", "map_axis_skipnan"]),
+        Prop::C18 => "quantiles_axis",
+        _ => *rng.pick(&["quantile_axis", "quantiles_axis"]),
+    };
+    let mut op = new_op(rng, name);
+    op.axis = 0;
+    op.strat = fix_strat(ty, style, gen_strat(rng), rng);
+    let cnt = if name == "quantiles_axis" { 1 + rng.below(3) } else { 1 };
+    op.qs = (0..cnt).map(|_| gen_q(rng, k)).collect();
+    op.inner = "select".into();
+    op.idx = vec![rng.below(k) as u64];
+    scn.ops.push(op);
+    Some(scn)
+}
+
 pub fn gen_array_scenario(prop: Prop, rng: &mut Rng, tier: Tier) -> Scenario {
+    if rng.chance(1, 40000) {
+        if let Some(s) = wide_matrix_scenario(prop, rng) {
+            return s;
+        }
+    }
     let mut scn = gen_array_scenario_inner(prop, rng, tier);
+    rearrange(rng, &mut scn);
     retarget_to_run_boundaries(rng, &mut scn);
     scn
 }
@@ -578,8 +746,7 @@ fn gen_array_scenario_inner(prop: Prop, rng: &mut Rng, tier: Tier) -> Scenario {
                     } else {
                         let mut op = new_op(rng, "select_many");
                         op.lane = lane;
-                        let cnt = list_len(rng, n);
-                        op.idx = (0..cnt).map(|_| rng.below(n) as u64).collect();
+                        op.idx = gen_index_list(rng, n);
                         if reject {
                             let pos = rng.below(op.idx.len() + 1);
                             op.idx.insert(pos, oor_index(rng, n));
@@ -655,6 +822,7 @@ fn gen_array_scenario_inner(prop: Prop, rng: &mut Rng, tier: Tier) -> Scenario {
                     }
                     8 => {
                         let mut op = new_op(rng, "bins_index");
+                        op.form = rng.below(5) as u8;
                         let ne = rng.below(6);
                         let edges: Vec<i64> = (0..ne).map(|_| rng.range(-5, 5)).collect();
                         let mut d = edges.clone();
@@ -668,6 +836,7 @@ fn gen_array_scenario_inner(prop: Prop, rng: &mut Rng, tier: Tier) -> Scenario {
                     _ if rng.chance(1, 8) => {
                         // a grid with many axes / many bins: the total number of cells overflows usize
                         let mut op = new_op(rng, "grid_index");
+                        op.form = rng.below(5) as u8;
                         let na = *rng.pick(&[7usize, 11, 16, 22, 33, 64, 70]);
                         let nb = *rng.pick(&[2usize, 3, 16, 17, 64, 1000]);
                         let bad_axis = rng.below(na);
@@ -680,6 +849,7 @@ fn gen_array_scenario_inner(prop: Prop, rng: &mut Rng, tier: Tier) -> Scenario {
                     }
                     _ => {
                         let mut op = new_op(rng, "grid_index");
+                        op.form = rng.below(5) as u8;
                         let na = if rng.chance(1, 12) { 0 } else { 1 + rng.below(3) };
                         let mut lens = vec![];
                         for _ in 0..na {
@@ -706,7 +876,7 @@ fn gen_array_scenario_inner(prop: Prop, rng: &mut Rng, tier: Tier) -> Scenario {
             let lane_max = if thorough { if rng.chance(1, 20) { 200 } else { 40 } } else { 24 };
             let nd = match prop {
                 Prop::C19 => 1 + rng.below(2),
-                _ => 1 + rng.weighted(&[4, 4, 2, 1]),
+                _ => 1 + rng.weighted(&[40, 40, 20, 10, 2, 1]),
             };
             let flag_ = prop == Prop::C01 && rng.chance(1, 4);
             let lens = lens_for(rng, nd, lane_max, if nd >= 3 { 3 } else { 4 }, flag_, thorough);
@@ -734,8 +904,7 @@ fn gen_array_scenario_inner(prop: Prop, rng: &mut Rng, tier: Tier) -> Scenario {
                             if n > 0 {
                                 let mut op = new_op(rng, "select_many");
                                 op.lane = lane;
-                                let cnt = list_len(rng, n);
-                                op.idx = (0..cnt).map(|_| rng.below(n) as u64).collect();
+                                op.idx = gen_index_list(rng, n);
                                 op.form = rng.below(5) as u8;
                                 scn.ops.push(op);
                             }
@@ -756,6 +925,11 @@ fn gen_array_scenario_inner(prop: Prop, rng: &mut Rng, tier: Tier) -> Scenario {
                                     // a dense grid around the index boundaries, sorted ascending
                                     let cnt = 2 + rng.below(if thorough { 14 } else { 8 });
                                     let mut qs: Vec<f64> = (0..cnt).map(|_| gen_q(rng, n)).collect();
+                                    if n >= 4 && n <= 80 && rng.chance(1, 6) {
+                                        // the full grid k/(N-1), possibly without one interior point
+                                        let skip = if rng.chance(1, 2) { 1 + rng.below(n - 2) } else { n };
+                                        qs = (0..n).filter(|&k| k != skip).map(|k| (k as f64 / (n - 1) as f64).min(1.0)).collect();
+                                    }
                                     qs.sort_by(|a, b| a.partial_cmp(b).unwrap());
                                     op.qs = qs;
                                     op.form = rng.below(5) as u8;
@@ -784,10 +958,11 @@ fn gen_array_scenario_inner(prop: Prop, rng: &mut Rng, tier: Tier) -> Scenario {
                 3..=4 => ElemTy::F64,
                 5..=6 => ElemTy::OptI32,
                 7 => *rng.pick(&ORD_TYPES),
+                8 => *rng.pick(&RARE_NAN_TYPES),
                 _ => *rng.pick(&NAN_TYPES),
             };
             let lane_max = if thorough { 40 } else { 12 };
-            let nd = 1 + rng.weighted(&[3, 4, 2]);
+            let nd = 1 + rng.weighted(&[30, 40, 20, 0, 1, 1]);
             let flag_ = rng.chance(1, 10);
             let lens = lens_for(rng, nd, lane_max, 3, flag_, thorough);
             let flag_ = rng.chance(1, 8);
@@ -843,16 +1018,17 @@ fn gen_array_scenario_inner(prop: Prop, rng: &mut Rng, tier: Tier) -> Scenario {
             scn
         }
         Prop::C14 => {
-            let ty = match rng.below(10) {
+            let ty = match rng.below(11) {
                 0..=2 => ElemTy::F64,
                 3 => ElemTy::F32,
                 4..=6 => ElemTy::OptI32,
                 7 => ElemTy::OptN64,
                 8 => ElemTy::OptN64,
+                9 => *rng.pick(&RARE_NAN_TYPES),
                 _ => ElemTy::OptU8,
             };
             let lane_max = if thorough { 40 } else { 12 };
-            let nd = 1 + rng.weighted(&[3, 4, 2]);
+            let nd = 1 + rng.weighted(&[30, 40, 20, 0, 1, 1]);
             let flag_ = rng.chance(1, 10);
             let lens = lens_for(rng, nd, lane_max, 3, flag_, thorough);
             let flag_ = rng.chance(1, 5);
@@ -993,7 +1169,7 @@ pub fn gen_det_bulk_op(rng: &mut Rng) -> Op {
             .collect();
         // aux: shape, data, weights, [elem kind: 0 f64, 1 i64, 2 f32], [layout: 0 C, 1 F]
         op.aux = vec![shape, data, weights, vec![rng.below(3) as i64], vec![rng.below(2) as i64], vec![rng.below(4) as i64]];
-        op.idx = vec![rng.below(5) as u64, rng.below(2) as u64]; // ddof = idx[0]/4 in [0,1]; idx[1]: statically-dimensioned arrays
+        op.idx = vec![if rng.chance(1, 30) { 99 } else { rng.below(5) as u64 }, rng.below(2) as u64]; // ddof = idx[0]/4 in [0,1]; idx[1]: statically-dimensioned arrays
         op
     }
 }
@@ -1130,6 +1306,10 @@ pub fn gen_hist_scenario(rng: &mut Rng, tier: Tier) -> HistScenario {
         }
     }
     let forms = (0..delivery.len()).map(|_| rng.below(5) as u8).collect();
-    let edge_forms = (0..d).map(|_| if rng.chance(1, 2) { 0 } else { rng.below(5) as u8 }).collect();
+    let mut edge_forms: Vec<u8> = (0..d).map(|_| if rng.chance(1, 2) { 0 } else { rng.below(5) as u8 }).collect();
+    if rng.chance(1, 10) {
+        // the grid is the result of clone_from into a larger existing grid / bins
+        edge_forms[0] = 5 + rng.below(2) as u8;
+    }
     HistScenario { elem: elem.to_string(), edges, producers, delivery, forms, matrix_order: rng.below(4) as u8, edge_forms }
 }
